@@ -4,11 +4,13 @@ CONSTANTS MultipliedEndForNominal <- Off
           FirstAfterIgnoresEnd <- Off
           MaxTake = 6
           ShiftMovesStoredPoints <- Off
-          WinSpecs <- NoWins
+          WinSpecs <- SomeWins
           Shifts <- NoShifts
           Intervals <- AllIv
           Fmts <- F134
           Ns <- NsAll
-INVARIANT EmitGen
-CONSTRAINT OnlyInit
+INVARIANT Increasing
+INVARIANT Bounded
+INVARIANT WindowSound
+INVARIANT WindowPrefix
 CHECK_DEADLOCK FALSE
